@@ -136,6 +136,12 @@ class SchedQueue(queue.Queue):
     def put(self, item, block=True, timeout=None):
         s = self.sched
         kind, arg = self._tag(item)
+        # A TIMED wait can always time out: the schedule in which the other thread stays away for longer than the timeout is
+        # a legal one (virtual time).  A put with a finite timeout (or a non-blocking put) on a full queue fails right away;
+        # the pinned code waits without a timeout, for which nothing changes.
+        if (timeout is not None or not block) and self.maxsize > 0 and queue.Queue.qsize(self) >= self.maxsize:
+            s.log("put_timed_out", arg)
+            raise queue.Full
         s.arrive("prod", kind, arg)
         if s.forced:
             if self.maxsize > 0 and queue.Queue.qsize(self) >= self.maxsize:
@@ -147,6 +153,9 @@ class SchedQueue(queue.Queue):
 
     def get(self, block=True, timeout=None):
         s = self.sched
+        if (timeout is not None or not block) and queue.Queue.qsize(self) == 0:     # see put(): a timed wait can time out
+            s.log("get_timed_out", None)
+            raise queue.Empty
         s.arrive("cons", "get", None)
         if s.forced:
             if queue.Queue.qsize(self) == 0:
